@@ -188,8 +188,13 @@ where
 
     // Prepare the default SolOut (wrapping user callback if provided)
     let n_states = y0.len();
-    // The first reported interval is x0 -> x0 +/- |first_step|, but never beyond xend
-    let first_output = options.first_step.map(|h| h.abs().min((xend - x0).abs()));
+    // The first reported interval is x0 -> x0 +/- |first_step|. A first_step that covers the whole interval asks for
+    // nothing: the first trial step is the landing step, and its target x0 +/- |xend - x0| need not round to xend
+    // (20000.3 -> 0.1 gives 0.0999999999985), so the handler would wait for a point beyond xend and report nothing
+    let first_output = options
+        .first_step
+        .map(|h| h.abs())
+        .filter(|h| *h < (xend - x0).abs());
     let mut default_solout = DefaultSolOut::new(f, options.t_eval.clone(), options.dense_output, first_output, x0, n_states);
     // Requested times are matched against step ends with an absolute tolerance: keep it below the interval length
     default_solout.limit_tolerance(xend - x0);
